@@ -326,12 +326,16 @@ package desync
 //@ guard SwapStore: s by mu
 //@ guard SwapWriteStore: SwapStore.s by SwapStore.mu
 
+//# a request runs inside the current store only while this wrapper's lock is held (Swap closes the old
+//# store under the write lock, so it cannot close a store with a request in flight)
 //@ func (s *SwapStore) GetChunk
 //@   prop C11 C03
 //@   ensures @C03 err == nil ==> r0 != nil && r0.idCalculated && r0.id == id
+//@   oncall Store.GetChunk: requires held(s.mu) != 0
 
 //@ func (s *SwapStore) HasChunk
 //@   prop C11
+//@   oncall Store.HasChunk: requires held(s.mu) != 0
 
 //@ func (s *SwapStore) Close
 //@   prop C11
@@ -342,10 +346,12 @@ package desync
 //@ func (s *SwapStore) Swap
 //@   prop C11
 //@   ensures err == nil ==> s.s == new
+//@   oncall Close: requires held(s.mu) == 1
 
 //@ func (s *SwapWriteStore) StoreChunk
 //@   prop C11
 //@   nochecks panic
+//@   oncall WriteStore.StoreChunk: requires held(s.SwapStore.mu) != 0
 
 // ---------------------------------------------------------------------------- C07: remaining feeders
 
@@ -380,6 +386,24 @@ package desync
 //@   ghost@recv:ctx.Done() $sawDone = true
 //@   loop 1: invariant !$sawDone && $consumed >= 0
 //@   ensures $sawDone ==> is(r0, Interrupted)
+
+//# UnTarIndex reports what its goroutines report (errgroup: Wait is nil only if every goroutine returned
+//# nil - library semantics, trusted). The feeder returns nil only after it handed the result channel of
+//# every chunk of the index to the assembler; the assembler returns nil only when it left its loop
+//# because the feeder closed the hand-over channel, never because of a cancellation. Together: a nil
+//# result means every chunk of the archive was written into the pipe before it was closed.
+//@ func UnTarIndex
+//@   prop C07
+//@   safety none
+//@   requires n >= 1 && $consumed >= 0
+//@   lit 4: requires $consumed >= 0
+//@   lit 2: ghost@entry $eof = false
+//@   lit 2: ghost@loop1.exit $eof = true
+//@   lit 2: ensures r0 == nil ==> $eof
+//@   lit 3: ghost@entry $sawDone = false
+//@   lit 3: ghost@recv:ctx.Done() $sawDone = true
+//@   lit 3: loop 1: invariant !$sawDone
+//@   lit 3: ensures $sawDone ==> r0 != nil
 
 // ---------------------------------------------------------------------------- C12: request de-duplication
 
